@@ -5,6 +5,7 @@ import (
 	"fmt"
 	"time"
 
+	lcommon "github.com/blinklabs-io/gouroboros/ledger/common"
 	"github.com/blinklabs-io/gouroboros/pipeline"
 	pcommon "github.com/blinklabs-io/gouroboros/protocol/common"
 	rt "github.com/blinklabs-io/gouroboros/verifsimrt"
@@ -72,7 +73,7 @@ func pipelineSetup(s *rt.Sim, tier string) func() {
 			if failSlot[slot] {
 				return "", fmt.Errorf("harness: no epoch nonce for slot %d", slot)
 			}
-			return "4ef95a10f639d0cf16bb963c3a580d4bf2a95b6ae7848702665884843e3c661d", nil
+			return validConwayEta0, nil
 		}
 		var all []*plBlock
 		byIdx := map[uint64]*plBlock{}
@@ -111,7 +112,8 @@ func pipelineSetup(s *rt.Sim, tier string) func() {
 			rt.Hit("pl.small-pending-limit")
 		}
 		if valWorkers > 0 {
-			plOpts = append(plOpts, pipeline.WithEta0Provider(eta0Provider), pipeline.WithSlotsPerKesPeriod(129600))
+			plOpts = append(plOpts, pipeline.WithEta0Provider(eta0Provider), pipeline.WithSlotsPerKesPeriod(129600),
+				pipeline.WithVerifyConfig(lcommon.VerifyConfig{SkipBodyHashValidation: true, SkipTransactionValidation: true, SkipStakePoolValidation: true}))
 			rt.Hit("pl.validation-on")
 		}
 		p := pipeline.NewBlockPipeline(plOpts...)
@@ -126,6 +128,9 @@ func pipelineSetup(s *rt.Sim, tier string) func() {
 				if b := byIdx[item.Tip().BlockNumber]; b != nil {
 					b.results++
 					b.resValid = item.IsValid()
+					if b.resValid {
+						rt.Hit("pl.block-validated")
+					}
 					if !b.good && item.IsApplied() {
 						rt.Violate("C42/failed-block-applied", "block %d does not decode but its result says applied", b.idx)
 					}
@@ -149,6 +154,9 @@ func pipelineSetup(s *rt.Sim, tier string) func() {
 				defer func() { fin <- struct{}{} }()
 				for i := 0; i < perSub; i++ {
 					fb := blocks[pick("op", len(blocks))]
+					if valWorkers > 0 && chance("op", 1, 2) {
+						fb = validConwayBlock() // passes validation: applied, in order
+					}
 					b := &plBlock{idx: len(all) + 1, good: true, task: task, valFail: failSlot[fb.Slot]}
 					data := fb.Data
 					if chance("op", 1, 5) {
